@@ -8,7 +8,7 @@
     function of the request (and the clock) only is the model's signature; sockets, timeouts, the
     1 MiB limit and process liveness are fasthttp's / the runtime's and are observed by the harness. *)
 From Coq Require Import String.
-From OtpV Require Import Prelude Errors Rest RestProofs.
+From OtpV Require Import Prelude Errors Rest RestProofs Flow Mem SsaNative.
 Open Scope N_scope.
 
 Theorem C19_every_request_is_answered : forall now r,
@@ -38,3 +38,10 @@ Example C19_huge_skew :
                                     (s2b "timestamp", JvInt 59); (s2b "skew", JvInt 18446744073709551615)])
   = (mkResp 200 (PValid false), O).
 Proof. vm_compute. reflexivity. Qed.
+
+(** "continues to answer subsequent well-formed requests correctly": no request can leave anything behind — outside
+    package initialisation nothing writes memory reachable from a package-level variable (a lock left held, a table, a
+    cache), decided on the SSA facts regenerated from the code *)
+Theorem C19_stateless : Flow.mem_ok SsaNative.mem_facts = true.
+Proof. vm_compute. reflexivity. Qed.
+Print Assumptions C19_stateless.
